@@ -287,17 +287,17 @@ def judge_c18(d):
 
 
 PROPS["C18"] = {
-    "lean_modules": ["P2.Props.C18"],
+    "lean_modules": ["P2.Props.C18", "P2.Props.C18b"],
     "audit_module": "P2.Audit.C18",
     "harness_prop": "c18",
     "profile": "release",
     "judge": judge_c18,
     "trusted_base": PLONK_TB + [
         "byte decoders (from_bytes) are exercised on the implementation only (outcome classes); their codec model is part of C17 (partial)",
-        "STARK entry points not covered yet (partial)",
+        "STARK entry point verify_stark_proof: structural mutants compared with the Lean STARK verifier model (P2/Model/Stark.lean), which reproduces the panics that precede shape validation (known findings F-C18-3a/b)",
     ],
-    "level_text": "Lean 4: three-valued verifier model (accept / reject / panic) in which every index, lookup and subtraction of verify is a partial operation; theorems: PLONK shape validation is total and panic-free on structurally arbitrary proofs, a wrong shape is a clean error; tied to CircuitData::verify by outcome-class agreement (OK/ERR/PANIC) on structural mutants of every array of the proof's serde tree; the property's oracle runs on the implementation for plain and compressed verification, decompression and both byte decoders (truncations, bit flips, 8-byte field overwrites incl. huge lengths, random bytes)",
-    "level_note": "F-C18-1 (panic on caps of non-power-of-two length) was found with this model and repaired in /repo (fix: commit). The compressed form has no shape validation: F-C18-2 / F-C18-4 are genuine and recorded in known_findings.jsonl (not a small repair); any OTHER panic or wrongly accepted malformed input is reported as a violation.",
+    "level_text": "Lean 4: three-valued verifier model (accept / reject / panic) in which every index, lookup and subtraction of verify is a partial operation; theorems: PLONK shape validation is total and panic-free on structurally arbitrary proofs, a wrong shape is a clean error; tied to CircuitData::verify by outcome-class agreement (OK/ERR/PANIC) on structural mutants of every array of the proof's serde tree; the property's oracle runs on the implementation for plain and compressed verification, decompression and both byte decoders (truncations, bit flips, 8-byte field overwrites incl. huge lengths, random bytes); theorems C18b: once Fri.validateShape accepts, NO panic point of the FRI verifier model is reachable (fri_verify_never_panics) and, under common-data well-formedness (total arity <= degree_bits) and a verifier-data cap of the right length, Plonk.verify never panics on ANY proof value (plonk_verify_never_panics) — stating this theorem exposed F-C18-5; re-ground mutants (pow witness searched so that commit-phase-cap / final-polynomial surgery gets past the pow and Merkle checks) and STARK proof mutants are part of the correspondence",
+    "level_note": "F-C18-1 (panic on caps of non-power-of-two length) and F-C18-5 (missing commit-phase cap => index panic, surplus cap accepted) were found with this model and repaired in /repo (fix: commits). STARK: F-C18-3a/b (panics before shape validation) are genuine and recorded as known findings. The compressed form has no shape validation: F-C18-2 / F-C18-4 are genuine and recorded in known_findings.jsonl (not a small repair); any OTHER panic or wrongly accepted malformed input is reported as a violation.",
     "assumptions": [],
     "rule": "per accepted proof: 5 surgeries x every array class (plain), 3 surgeries x every array class + map entry removal/addition + numeric edits (compressed), byte mutants of both encodings; distinct = distinct request lines",
 }
@@ -468,6 +468,55 @@ PROPS["C19"] = {
     "level_note": "Schedules, seeds and lanes are runtime facts: partial by nature; the theorem part covers the order-independence logic only.",
     "assumptions": [],
     "rule": "6 (thorough 14) fixed programs x 4 thread counts in-process + 2 further processes (+4 alternative builds in thorough) with cross-verification of proofs; digest/cap recomputation requests; distinct = distinct request lines",
+}
+
+STARK_TB = KERNEL_TB + [
+    "modelled, not verified: starky verifier.rs, get_challenges.rs, proof.rs (recover_degree_bits), config.rs (fri_params incl. MinSize search), vanishing_poly.rs, constraint_consumer.rs, lookup.rs (eval_packed_lookups_generic, helper columns), cross_table_lookup.rs (CtlCheckVars::from_proof, eval_cross_table_lookup_checks, verify_cross_table_lookups), stark.rs fri_instance — transcribed by hand (P2/Model/Air.lean, Stark.lean) on top of the FRI/Merkle/Challenger models",
+    "STARK definitions are interpreted AIR data (harness/src/stark_dsl.rs DslStark: eval_packed_generic and eval_ext_circuit interpret the same expression trees the Lean model evaluates); the three toy STARKs of the crate are reproduced as AIR data; generated AIRs are checked with the library's own test_stark_low_degree / test_stark_circuit_constraints",
+    "the STARK PROVER is not modelled: completeness is tied by the implementation oracle only (satisfying trace => prove succeeds and verify accepts; violating trace => no accepted proof), soundness arguments are the verifier-model theorems + cryptographic idealisations",
+    "NOT proved (cryptographic idealisations): FRI proximity soundness, Fiat-Shamir in the random-oracle model, collision resistance of Poseidon",
+]
+
+def judge_stark(d):
+    a, b = d["impl"], d["model"]
+    rq = d["request"]
+    if " sat " in rq[:12] or " lookupsat " in rq[:16] or " ctlsat " in rq[:14]:
+        return f"row semantics differ: the harness's evaluator says {a}, the Lean AIR semantics says {b}"
+    if a == "ACCEPT" and b != "ACCEPT":
+        return f"the implementation ACCEPTS a STARK proof that the verifier model rejects ({b}): a check is missing or weakened"
+    if b == "ACCEPT" and a != "ACCEPT":
+        return f"the implementation rejects ({a}) a STARK proof the verifier model accepts"
+    if a == "PANIC" and b != "PANIC":
+        return f"the implementation panics where the model returns {b}"
+    return f"verdict / challenges differ: implementation {a[:80]}, model {b[:80]}"
+
+
+PROPS["C09"] = {
+    "lean_modules": ["P2.Props.C09"],
+    "audit_module": "P2.Audit.C09",
+    "harness_prop": "c09",
+    "profile": "release",
+    "judge": judge_stark,
+    "trusted_base": STARK_TB,
+    "level_text": "Lean 4 model of the complete STARK verifier (degree recovery, FRI parameters for all three reduction strategies, full challenge derivation incl. both transcript padding modes, L_0/L_last, constraint consumer, quotient identity, FRI instance, FRI verifier) and of what 'the trace satisfies the AIR' means row by row; theorems: the constraint consumer is one Horner accumulator per challenge (every constraint value enters with its own power of alpha), satisfied <-> every active constraint is zero on every row (transitions skip the wrap-around row), wrong public-input count and a quotient commitment whose presence does not match the AIR fail shape validation (F-C09-2 as repaired); tied to starky by exact agreement of verdicts and of every challenge on honest proofs, on proofs of corrupted traces, on per-element tampering / list surgery / option toggling of accepted proofs and on forged proofs (dishonest prover without quotient commitment), plus the property's oracle on the implementation: satisfying trace => proof accepted, violating trace (single-cell corruption in first / last / interior / wrap-around rows, wrong public inputs) => no accepted proof, at standard strength every tampered proof rejected",
+    "level_note": "Found and repaired in /repo with this machinery: F-C09-2 (forged proofs accepted: missing quotient commitment allowed), F-C09-1 (ctl_zs_first None/Some([]) malleability), F-C09-3 (Fixed schedule longer than the degree: honest proof rejected). The prover is not modelled (implementation oracle only).",
+    "assumptions": ["FRI proximity soundness", "random oracle", "collision resistance"],
+    "rule": "AIRs: fibonacci / permutation / unconstrained + generated (1..8 columns, degree 0..3, with/without public inputs, first/last/transition/unconditional constraints) x trace lengths 2^1..2^8 x StarkConfig (rate 1..3, cap height 0..4, grinding, 2..6 queries, Fixed / ConstantArityBits / MinSize, padded transcripts) + one standard-strength instance; corruptions: 5 row classes x columns, wrong public inputs, row exchange; tampering: every class of JSON leaf, 3 surgeries per array class, option toggles, public inputs, other transcript mode; forgery per instance; distinct = distinct request lines",
+}
+
+PROPS["C10"] = {
+    "lean_modules": ["P2.Props.C09"],
+    "audit_module": "P2.Audit.C09",
+    "harness_prop": "c10",
+    "profile": "release",
+    "judge": judge_stark,
+    "trusted_base": STARK_TB + [
+        "multi-table glue: starky ships no multi-table verifier, so harness/src/c10.rs mod ctl composes get_ctl_data / prove_with_commitment / CtlCheckVars::from_proof / verify_stark_proof_with_challenges / verify_cross_table_lookups the way the documented consumer does, and Stark.verifyMulti mirrors that glue",
+    ],
+    "level_text": "Lean 4 model of the STARK verifier with column lookups (helper columns, Z running sum, first-row and wrap-around constraints) and cross-table lookups (CtlCheckVars::from_proof, eval_cross_table_lookup_checks, verify_cross_table_lookups, multi-table verifier) and of the MEANING of a lookup / cross-table lookup on traces as weighted multisets (Air.firstBadLookup, CtlSpec.holds); theorems (shared with C09): consumer algebra, row semantics, shape validation facts; tied to starky by exact agreement of verdicts/challenges on honest and tampered single- and multi-table proofs and of the multiset semantics with the harness's evaluator; implementation oracle: lookups hold on the trace => proof accepted, a single missing / extra / altered value on the looking side, the table, the frequencies, a filter, a helper or running-sum opening => no accepted proof",
+    "level_note": "Found with this machinery: F-C10-2 (next-row terms of table/frequencies columns ignored by the constraints: honest proof rejected; repaired in /repo), F-C10-1 (lookups with constraint_degree 0 are never enforced; known finding, not a small repair). Lookup-specific theorems (multiset weights, logUp algebra) are being added.",
+    "assumptions": ["FRI proximity soundness", "random oracle", "collision resistance", "logUp soundness over the challenge space (Schwartz-Zippel)"],
+    "rule": "column lookups: 1..4 looking columns, single / linear-combination / next-row / combined column forms, 5 filter kinds, degree 2 and 3, corruptions of looking side, table, frequencies, filters, noise cells; cross-table lookups: 2- and 3-table systems, a table looking twice, linear and next-row columns, product filters, 6 corruption kinds on either side, tampering of auxiliary cap/openings; distinct = distinct request lines",
 }
 
 NOT_CLAIMED = {}
